@@ -30,7 +30,40 @@ P = {
              note="Evictions are inferred from the observable length; 'just used' = most recent hit or insertion.", ref="4/C20"),
 }
 
-IMPLEMENTED = ["C01","C02","C13","C14","C15","C16","C18","C20"]
+P.update({
+ "C03": dict(tech="coverage monitor over the source zoo: every tile obtained by lookups on a probe set or by streams over widened boxes is tested against the advertised pyramid; exact level boxes for mbtiles / pmtiles / tar / directory (own and foreign encodings)",
+             text="Runtime monitoring: for container readers over irregular tile sets (own writers and independent encoders incl. PMTiles runs whose middle tiles leave the bounding box of the run's ends), the converting reader and every pipeline operation, all tiles a source returns must lie inside its advertised per-level boxes; derived-coverage formats must advertise exactly the bounding box of the stored tiles.",
+             note="'Can return' is explored, not enumerated: probe set (stored, neighbours, rings, all of zoom<=3, random) and streams over widened boxes.", ref="4/C03"),
+ "C04": dict(tech="differential conversion monitor: 3 source compressions x {keep,none,gzip,brotli} x force x 5 target formats on genuinely compressed payload classes; output decoded with independent gzip/brotli; metadata through reader and independent decoder",
+             text="Runtime monitoring: every (source compression, target, force, format) cell is converted with convert_tiles_container (random flip/swap, in-memory or file sources, single- and multi-threaded runtime); every output tile decoded with the compression the output declares must equal the decoded source tile (lookups and streams), declared compression must be the requested one, metadata must survive and be decodable with the codec the format prescribes; plus the compress/decompress/recompress algebra of the utils against independent codecs.",
+             note="MBTiles / PMTiles only with the pairs they can hold. Metadata compared as JSON on name/attribution/vector_layers/tilejson.", ref="4/C04"),
+ "C05": dict(tech="black-box HTTP monitor: real `versatiles serve` binary, raw-socket HTTP/1.1 client, containers with known tile maps, independent media-type table and codecs",
+             text="Runtime monitoring: thousands of raw exchanges per run against servers in best and --fast mode serving versatiles (3 stored compressions, 6 tile formats), mbtiles, pmtiles, tar and directory sources: stored coordinates, neighbours, out-of-range x/y, z 32..255, unparsable and loosely written parts, Accept-Encoding subsets in random order/case/q/spacing. Oracle: complete response; 200 iff stored else 404 (400 if unparsable); decoded body = decoded stored tile; Content-Type; Content-Encoding absent or listed by the client.",
+             note="z in 32..255 may be 400 or 404; lenient forms only need a complete response and, on 200, the right tile.", ref="4/C05"),
+ "C06": dict(tech="model-based monitor on three levels: TilesConvertReader (lookups / streams / coverage), `versatiles convert` CLI read back by independent decoders, `versatiles serve --flip-y --swap-xy` over HTTP; independent Mercator model with tolerance band",
+             text="Runtime monitoring: for generated tile sets with unique payloads and random options (4 flag combinations, zoom limits, geographic boxes incl. tile-aligned / degenerate / world / Mercator-limit, border widths incl. huge) the output must contain a tile at c iff c is in the selection and the source has T^-1(c) (flip first, then swap) with that payload. Checked on the library reader, on the CLI into all five formats and on the server (incl. coordinates beyond the level, which must give complete 404s).",
+             note="Selection in output coordinates; tolerance band 2e-6 tile (1e-3 at zoom>=28); tile-aligned boxes exact at their level (zoom<30).", ref="4/C06"),
+ "C07": dict(tech="black-box HTTP monitor with canary files: real binary with -s <folder|tar> (with/without prefix), raw request targets from a segment alphabet, canaries outside the root (plain and only-precompressed)",
+             text="Runtime monitoring: request targets built from {file, dir, '.', '..', empty, %2e%2e, %2E%2e, ..%2f, %2f, ..;, canary names, absolute-path components, long name} up to length 5, plus //abs and ///abs forms, are sent raw; no response (raw or decoded) may contain a canary token, a 200 body must be the content of a file inside the root, lexically escaping and absolute targets must not be answered 200, every response must be complete.",
+             note="Canaries cover the scratch tree around the root; symlinks are out of scope.", ref="4/C07"),
+ "C08": dict(tech="sequential first-source model over 2..4 sources (memory / real files, mixed compression, filters, sources that go Pending on open / read); lookups, streams, declared compression, coverage = union",
+             text="Runtime monitoring: overlays of generated sources with payload 's<i>:z/x/y' really compressed per source; every probed coordinate and streamed box is compared (after decoding with the declared compression) with the first listed source holding the tile; advertised coverage must equal the union of the sources' coverages; building and streaming must not fail.",
+             note="Byte identity is not demanded, only identity after decoding with the declared compression.", ref="4/C08"),
+ "C09": dict(tech="sequential filter model (zoom range, tile box of the geographic bbox via independent Mercator model with tolerance band, chains = intersection); all (min,max) pairs; invalid-argument table",
+             text="Runtime monitoring: chains of 1..4 filter_zoom / filter_bbox stages over in-memory and file sources (levels 0..31) are compared with the model on lookups, streams and coverage; all (min,max) in {absent,0..32,255}^2 on a source with every level; 21 invalid argument forms must be rejected at build time, 9 unusual-but-valid ones accepted.",
+             note="Tolerance band as in C06; tile-aligned boxes exact at their level.", ref="4/C09"),
+ "C10": dict(tech="canonical-form model: independent MVT encoder -> from_vectortiles_merged -> independent MVT decoder; concatenation model per layer name; lookups and streams; Pending sources",
+             text="Runtime monitoring: 2..4 vector sources (mixed compression, overlapping coverage, duplicate/unused table entries, extreme integers, differing extents) are merged; the output must exist iff some source has a tile, be declared and delivered uncompressed, hold one layer per distinct name with the features of all sources in source order, each with its id, geometry and property map.",
+             note="Layer order and the merged layer's extent/version are not constrained; integers compared by value.", ref="4/C10"),
+ "C11": dict(tech="canonical-form model: decode/re-encode round trip of generated tiles; join model for vectortiles_update_properties with a generated CSV (merge/replace x remove_non_matching x include_id)",
+             text="Runtime monitoring: (a) VectorTile::from_blob -> to_blob on tiles from the independent encoder (table duplicates/unused entries, int64/sint64/uint64 extremes, -0.0, Unicode, UNKNOWN geometry, ids to 2^64-1) must preserve the canonical content; (b) update_properties must leave other layers untouched and keep id, geometry type, geometry bytes and order of retained features, with property maps equal to the join model (lookups and streams).",
+             note="CSV cell typing follows the data-file reader (bool / double / int / string).", ref="4/C11"),
+ "C12": dict(level="fault_enumeration", tech="fault enumeration on the recorded write trace: TraceWriter (DataWriterTrait) -> every operation prefix + byte cuts -> real reader must reject or return every tile intact",
+             text="Fault enumeration: for each recorded trace (both formats, all compressions, one PMTiles/versatiles trace with > 16384 tiles) every prefix of the operation sequence and byte-granular cuts of short and final operations are materialised as file images (unwritten regions = zeros) and opened with the real reader; Ok requires every source tile intact. Exhaustive per trace in the operation-prefix dimension (thinned only for the two huge traces).",
+             note="Crash model: completed operations + prefix of the interrupted one, in program order.", ref="4/C12"),
+})
+
+IMPLEMENTED = ["C01","C02","C03","C04","C05","C06","C07","C08","C09","C10","C11","C12","C13","C14","C15","C16","C18","C20"]
 NOT_YET = {}
 
 def main():
